@@ -169,10 +169,9 @@ func (o *offsetDB) parseStreams(content string, streams streamsOffsets) (string,
 		if pos < 0 {
 			return "", fmt.Errorf("wrong offsets format, no separator %q", line)
 		}
+		// the stream name is whatever the event carried, an empty name included:
+		// save writes it, so it has to load
 		stream := pipeline.StreamName(line[4:pos])
-		if len(stream) == 0 {
-			return "", fmt.Errorf("wrong offsets format, empty stream, %s", content)
-		}
 
 		_, has := streams[stream]
 		if has {
